@@ -101,7 +101,7 @@ def check_property(pid, tier, only_group=None, only_unit=None, verbose=False):
                 other = 'minisat2' if u.get('solver', spec.get('solver')) == 'cadical' else 'cadical'
                 u2['name'] = u['name'] + '@' + other
                 u2['flags'] = list(u.get('flags', [])) + ['--sat-solver', other]
-                u2['timeout'] = 1800
+                u2['timeout'] = 900
                 u2['_second'] = True
                 jobs.append((spec, u2))
     results = []
@@ -160,6 +160,10 @@ def check_property(pid, tier, only_group=None, only_unit=None, verbose=False):
     samples = []
     solver_time = 0.0
     for r in results:
+        if 'undecided' in r and r['unit'].get('_second'):
+            # the agreement run on the other back end gave no answer (time-out / tool limit): recorded, decides nothing
+            bounded.append(dict(unit=r['name'], group=r['group'], label='second back end gave no answer: ' + r['undecided'][:160]))
+            continue
         if 'undecided' in r:
             if r.get('fallback'):
                 r2, p2, cf2, lines2 = r['fallback']
